@@ -4,6 +4,7 @@ import Ecal.Lemmas.EngineScope
 import Ecal.Lemmas.EngineRoot
 import Ecal.Lemmas.EngineBits
 import Ecal.Lemmas.EngineLeaf
+import Ecal.Gen.C01Facts
 /-!
 # C01 — exactly the matching, in-scope, unsuppressed rules fire once per event
 
@@ -16,9 +17,10 @@ open Ecal.Engine
 
 /-! ## the quick pre-check and its cache -/
 
-/-- `IsTriggering` looks at the kind of the event only (not at its name or state). -/
-theorem isTriggering_kind_only (rt : Root) (e1 e2 : Event) (h : e1.kind = e2.kind) :
-    rt.isTriggering e1 = rt.isTriggering e2 := by
+/-- In the model `IsTriggering` cannot look at anything but the kind (`trigAt` receives the kind only):
+    true by construction, kept as an example. That Go's `isTriggeringAtLevel` reads only `event.kind` is
+    carried by the tie (same-kind events with different names and states share histories). -/
+example (rt : Root) (e1 e2 : Event) (h : e1.kind = e2.kind) : rt.isTriggering e1 = rt.isTriggering e2 := by
   simp [Root.isTriggering, h]
 
 /-- the pre-check over-approximates the full match at every level of the tree -/
@@ -92,6 +94,13 @@ theorem after_inv (rx : Nat → Val → Bool) (sc : Scope) (hist : List Event) :
     have h2 := ih _ h1.2
     simp only [Proc.after, List.foldl_cons] at h2 ⊢
     exact ⟨h2.1.trans h1.1, h2.2⟩
+
+/-- Side obligation on the code (regenerated fact, `go/cmd/harness/c01facts.go`): the model keys the cache
+    by the kind itself; that is the real cache exactly if the real key is an injective rendering of
+    `event.Kind()`. The extractor reads the key expression of `eventProcessor.IsTriggering`: established
+    for `fmt.Sprintf("%q", event.Kind())`, refuted for a hash, a truncation, an unquoted join, a key that is
+    not a function of the kind; anything else is "not established" and only amplifies the search. -/
+theorem cacheKey_not_refuted : Ecal.Gen.C01.cacheKey ≠ 2 := by decide
 
 /-- After any history of added events (same or different names, kinds, states) the processor's
     cached pre-check answers exactly what the index answers for the event at hand — this is what
